@@ -44,11 +44,16 @@ def pow (a : Re) : Nat → Re → Re
   | 0, k => k
   | n + 1, k => .cat a (pow a n k)
 
+/-- at most `n` times `a`, nested as `(a(a(a)?)?)?` (derivatives stay small) -/
+def optN (a : Re) : Nat → Re
+  | 0 => .eps
+  | n + 1 => opt (.cat a (optN a n))
+
 /-- `a{m,n}` (`n = none`: unbounded). Ill-formed bounds (`n < m`) give `emp`;
     the parser rejects them before getting here, as Go does. -/
 def rep (a : Re) (m : Nat) : Option Nat → Re
   | none => pow a m (.star a)
-  | some n => if n < m then .emp else pow a m (pow (opt a) (n - m) .eps)
+  | some n => if n < m then .emp else pow a m (optN a (n - m))
 
 def anchorFree : Re → Bool
   | .bol | .eol => false
